@@ -48,6 +48,28 @@ theorem comment_keeps_state (st : KState) (line : Str) (h : isComment line = tru
   rw [if_pos h]
   simp only [strip_nil, List.isEmpty_nil, if_true]
 
+/-- **C07 (indented comments, F30).** A comment marker after any number of blanks makes the line a comment: it adds no reaction and
+    leaves the reader's state alone. -/
+theorem indented_comment_no_reaction (st : KState) (n : Nat) (rest : Str) :
+    step st (List.replicate n ' ' ++ '#' :: rest) = (st, none) ∧ step st (List.replicate n ' ' ++ '/' :: '/' :: rest) = (st, none) := by
+  have h1 : isComment (List.replicate n ' ' ++ '#' :: rest) = true := by
+    unfold isComment lstrip
+    rw [dropWhile_spaces]
+    simp [List.dropWhile, isWs]
+  have h2 : isComment (List.replicate n ' ' ++ '/' :: '/' :: rest) = true := by
+    unfold isComment lstrip
+    rw [dropWhile_spaces]
+    simp [List.dropWhile, isWs]
+  constructor
+  · unfold step preprocess
+    rw [if_pos h1]
+    simp only [strip_nil, List.isEmpty_nil, if_true]
+  · unfold step preprocess
+    rw [if_pos h2]
+    simp only [strip_nil, List.isEmpty_nil, if_true]
+
+example : (readKrome KState.init ["1,H,E,,H+,E,E,,NONE,NONE,1.0d-10".toList, "   # a note".toList, "\t".toList]).2.length = 1 := by decide
+
 theorem dropWhile_append_singleton (p : Char → Bool) (l : Str) (a : Char) (ha : p a = false) :
     (l ++ [a]).dropWhile p = l.dropWhile p ++ [a] := by
   induction l with
